@@ -132,6 +132,9 @@ def run(rep: Report, tier: str) -> None:
     rep.rule("R26.5", "catalogue entries: dict/str with a well-formed message using named placeholders")
     cat, _ = load_catalogue(P)
     classes = coded_classes(P)
+    rep.rule("R26.6", "building the arguments of a coded error cannot itself fail on an unset class attribute: a table lookup keyed by `cls.<attr>` (declared default None) "
+                      "inside the arguments sits under a test of that attribute")
+    arguments_cannot_raise_on_none(P, rep, "R26.6")
 
     # R26.5 ------------------------------------------------------------------------------
     ph: Dict[str, Set[str]] = {}
@@ -313,3 +316,47 @@ def coded_sites(P: Program, rep: Report, cat: Dict[str, Any], classes: Dict[str,
                                 f"{message_of(cat[code])!r} → KeyError in str.format"))
 
     return nsites, per_kind
+
+
+def _none_default_attrs(P: Program) -> Set[str]:
+    """class attributes declared with the default None somewhere in src/vtlengine (`x: T = None` / `x = None` in a class body)."""
+    out: Set[str] = set()
+    for m in P.modules.values():
+        for c in m.classes.values():
+            for st in c.node.body:
+                if isinstance(st, ast.AnnAssign) and isinstance(st.target, ast.Name) and isinstance(st.value, ast.Constant) and st.value.value is None:
+                    out.add(st.target.id)
+                elif isinstance(st, ast.Assign) and isinstance(st.value, ast.Constant) and st.value.value is None:
+                    out.update(t.id for t in st.targets if isinstance(t, ast.Name))
+    return out
+
+
+def arguments_cannot_raise_on_none(P: Program, rep: Report, rule: str) -> None:
+    """An argument of a coded constructor that indexes a table with `cls.<attr>` / `self.<attr>` where <attr> is a class attribute whose declared default is None
+    must sit under a test of that attribute (the repo's idiom: `if cls.type_to_check is not None`): otherwise building the error's arguments raises KeyError(None)
+    for the operators that leave the attribute unset, and the coded error is never constructed."""
+    none_attrs = _none_default_attrs(P)
+    names = set(CODED) | {q.rsplit(".", 1)[1] for q in coded_classes(P)}
+    n = 0
+    for f in P.iter_functions():
+        calls = [c for c in ast.walk(f.node) if isinstance(c, ast.Call) and (dotted(c.func) or "").split(".")[-1] in names]
+        if not calls:
+            continue
+        guards = [g for g in ast.walk(f.node) if isinstance(g, (ast.If, ast.IfExp, ast.While, ast.Assert))]
+        for c in calls:
+            for kw in list(c.keywords) + [ast.keyword(arg=None, value=a) for a in c.args]:
+                for s in ast.walk(kw.value):
+                    if not (isinstance(s, ast.Subscript) and isinstance(s.slice, ast.Attribute) and isinstance(s.slice.value, ast.Name)
+                            and s.slice.value.id in ("cls", "self") and s.slice.attr in none_attrs):
+                        continue
+                    n += 1
+                    attr = src(s.slice)
+                    guarded = any(attr in src(g.test) and g.lineno <= c.lineno <= (g.end_lineno or g.lineno) for g in guards)
+                    key = f"{f.qualname}/{src(s)[:50]}"
+                    rep.instance(rule, key, nontrivial=True, sample={"subscript": src(s), "guarded_by_test_of": attr if guarded else None})
+                    if not guarded:
+                        rep.add(Finding(rule, f"{rule}/{key}", f.module.rel, s.lineno, f.qualname,
+                                        f"argument `{src(s)}` of the coded error indexes a table with {attr}, a class attribute whose declared default is None, and no test of "
+                                        f"{attr} encloses the raise: for the operators that leave it None the lookup raises KeyError(None) while the arguments are built, so a "
+                                        f"raw KeyError escapes instead of the coded VTL error"))
+    rep.floor(f"{rule} table lookups keyed by a may-be-None class attribute in coded-error arguments", n, 1)
